@@ -416,6 +416,13 @@ fn ill_kinded(d: &J) -> String {
     let op = d["op"].as_str().unwrap();
     let pos = d["pos"].as_u64().unwrap() as usize;
     let kind = d["kind"].as_str().unwrap();
+    if kind == "attr" {
+        let mut t = String::from("1 sort bitvec 2\n2 sort bitvec 1\n3 sort bitvec 3\n4 input 1 a\n");
+        if op == "slice" { t.push_str(&format!("5 slice {} 4 {} {}\n", d["sort"], d["st"], d["ex"])); }
+        else { t.push_str(&format!("5 {op} {} 4 {}\n", d["sort"], d["st"])); }
+        t.push_str("6 output 5 o\n");
+        return t;
+    }
     if kind == "line" {
         let mut t = String::from("1 sort bitvec 2\n2 sort bitvec 1\n3 sort array 1 1\n4 sort array 2 1\n5 sort array 1 2\n6 input 1 a\n7 input 2 c\n8 state 3 m\n9 state 1 s\n10 state 4 m2\n11 state 5 m3\n12 state 2 s1\n");
         if op == "init" || op == "next" {
